@@ -1,5 +1,6 @@
 """Per-property definitions for ./check: Lean obligations, oracles over the implementation's results."""
 import os
+import re
 
 TRUSTED_BASE = [
     "Lean 4.33 kernel (thorough tier: re-checked with leanchecker); axioms limited to propext, Classical.choice, Quot.sound",
@@ -432,6 +433,9 @@ def sample_indices(n):
     return sorted({0, n // 7, n // 3, n // 2, (2 * n) // 3, n - 1})
 
 
+KNOWN_VALID_SOURCES = {t.encode().hex() for t in ["[1]", "[7]", "{}", "[2]", '{"id": 2}', "1", '"s"', "true", "[1,2]", '{"a":1}', "null", "[]", '{"k":[1,"x"]}']}
+
+
 def oracle(pid, ops, impl, tier):
     """Returns [(driver_op, wanted_result_prefix, why, source_op)] evaluated with reference definitions."""
     out = []
@@ -462,7 +466,10 @@ def oracle(pid, ops, impl, tier):
             elif f[0] == "superset":
                 out.append((f"rfc\t{f[2]}", "@C04sup:" + r, "is_superset answers false for every text that is not JSON", o))
             elif f[0] == "sourcesdoc":
-                out.append((f"rfc\t{f[-1]}", "@C04:" + r, "from_sources accepts exactly when every source is JSON", o))
+                # decided by the LAST source when the others are valid documents of the fixed list (a faulty source in
+                # another position is compared with the model, and C05 checks that the error describes it)
+                if all(h in KNOWN_VALID_SOURCES for h in f[1:-1]):
+                    out.append((f"rfc\t{f[-1]}", "@C04:" + r, "from_sources accepts exactly when every source is JSON", o))
     if pid in ("C06", "C17"):
         # the text path refuses a text that serde_json (and the value path) accept: legitimate only for a repeated
         # member name or nesting beyond the bound, which is what the model's own verdict on the text says
@@ -551,16 +558,22 @@ def direct_oracle(pid, ops, impl):
                     _, _, st, en = r.split(" ")[:4]
                     val = ""
                 st, en = int(st), int(en)
-                text = bytes.fromhex(f[-1])
-                frag = text[st:en] if st <= en <= len(text) else None
-                okb = frag is not None
-                if okb:
+                # the range and the fragment must describe ONE of the texts handed in (for several sources: the one
+                # that is at fault), on character boundaries
+                cands = [bytes.fromhex(h) for h in (f[1:] if f[0] == "sourcesdoc" else [f[-1]]) if all(c in "0123456789abcdef" for c in h)]
+                okb = False
+                for text in cands:
+                    frag = text[st:en] if st <= en <= len(text) else None
+                    if frag is None or frag.hex() != val:
+                        continue
                     try:
                         frag.decode()
                         text[:st].decode()
+                        okb = True
+                        break
                     except UnicodeDecodeError:
-                        okb = False
-                if not okb or frag.hex() != val:
+                        pass
+                if not okb:
                     fails.append({"op": o, "impl": r, "expected": "range inside the input on character boundaries and fragment == input[range]",
                                   "why": "parse error range/fragment not faithful"})
     if pid == "C09":
